@@ -47,13 +47,24 @@ def shape_list(row, w, entropy):
         return w
     import random
     rng = random.Random(entropy ^ 0x5EED)
+    if row.name.startswith(('STM_user', 'LDM_user')) and 'n' in row.fields and rng.random() < 0.3:
+        # user-bank forms: the base is a register that is banked in the (exception) mode executing the instruction, it is in the list, and it is the
+        # first register transferred - the word stored / loaded for it belongs to the User bank, the address comes from the current bank
+        nb_ = len(row.fields['r'])
+        b = rng.choice((13, 14, 13, 14, 8, 10, 12))
+        if b < nb_:
+            v = (1 << b) | ((rng.getrandbits(nb_) >> (b + 1)) << (b + 1))
+            for k_, val in (('n', b), ('r', v)):
+                for j, p_ in enumerate(reversed(row.fields[k_])):
+                    w = (w & ~(1 << p_)) | (((val >> j) & 1) << p_)
+            return w
     if rng.random() >= 0.4:
         return w
     poss = row.fields['r']
     nb = len(poss)
     f = row.extract(w)
     base = f.get('n')
-    kind = rng.randrange(8)
+    kind = rng.randrange(9)
     if kind == 0:
         v = 1 << rng.randrange(nb)
     elif kind == 1:
@@ -68,6 +79,8 @@ def shape_list(row, w, entropy):
         v = (1 << (nb - 1)) | (rng.getrandbits(nb) if rng.random() < 0.5 else 0)
     elif kind == 6:
         v = rng.getrandbits(nb) & rng.getrandbits(nb) & rng.getrandbits(nb)         # sparse (may be empty)
+    elif kind == 8 and isinstance(base, int) and base < nb:
+        v = (1 << base) | ((rng.getrandbits(nb) >> (base + 1)) << (base + 1))         # the base is the lowest register of the list (the first word transferred)
     else:
         v = ((1 << nb) - 1) ^ (1 << rng.randrange(nb))
     for j, p_ in enumerate(reversed(poss)):
